@@ -151,15 +151,46 @@ class Search:
                 warnings.simplefilter("always")
                 r = pickle.loads(pickle.dumps(sim))
             return r, [str(x.message) for x in w]
+        if path in ("sa_index", "sim_file_snapshot", "bytes_archive"):
+            # two-snapshot archive: snapshot 0 = now, one more step of the ORIGINAL, snapshot 1 = the state returned
+            import warnings
+            fn = os.path.join(self.tmp, "two.bin")
+            if os.path.exists(fn):
+                os.remove(fn)
+            sim.save_to_file(fn)
+            advance(sim, 1)
+            sim.save_to_file(fn)
+            with warnings.catch_warnings(record=True) as w:
+                warnings.simplefilter("always")
+                if path == "sa_index":
+                    sa = self.rb.Simulationarchive(fn)
+                    r = sa[1]
+                elif path == "sim_file_snapshot":
+                    r = self.rb.Simulation(fn, snapshot=1)
+                else:
+                    with open(fn, "rb") as fh:
+                        r = self.rb.Simulation(fh.read())
+            os.remove(fn)
+            return r, [str(x.message) for x in w if "synchronized" not in str(x.message)]
         raise ValueError(path)
 
     def semantic(self, fields):
         """view with the never-initialised members of ri_whfast.p_jh removed"""
         out = []
         psz = self.info["psz"]
+        vl = self.info["elems"]["reb_variational_configuration"]
+        vm = {m["name"]: m for m in vl["members"]}
         for t, p in fields:
             if self.R.names.get(t) == "ri_whfast.p_jh":
                 p = b"".join(p[e + lo:e + hi] for e in range(0, len(p), psz) for lo, hi in PJH_KEEP)
+            elif self.R.names.get(t) == "var_config":
+                # index_1st_order_a/b are never written for first-order configurations (finding C05-N14)
+                b = bytearray(p)
+                for e in range(0, len(b) - vl["size"] + 1, vl["size"]):
+                    if struct.unpack_from("<i", b, e + vm["order"]["off"])[0] == 1:
+                        for nm in ("index_1st_order_a", "index_1st_order_b"):
+                            b[e + vm[nm]["off"]:e + vm[nm]["off"] + vm[nm]["size"]] = b"\0" * vm[nm]["size"]
+                p = bytes(b)
             out.append((t, p))
         return out
 
@@ -328,6 +359,8 @@ class Search:
             self.pre_save_edit(a, cfg)
         except Exception as e:   # configuration rejected by REBOUND itself (e.g. SABA + variational)
             self.hist["rejected_config"] = self.hist.get("rejected_config", 0) + 1
+            if cfg.get("pw_index") is not None:
+                self.hist["pwrej|%d" % cfg["pw_index"]] = "build: " + str(e)[:120]
             return
         key = cfg_key(cfg)
         # 64-bit counters beyond 2^32 (a field written / read with 4 bytes would come back truncated)
@@ -335,6 +368,8 @@ class Search:
         self.hist["dim|scale:counters_ge_2^32"] = self.hist.get("dim|scale:counters_ge_2^32", 0) + 1
         b0 = R.save(a)
         r, warns = self.restore(a, path)
+        if path in ("sa_index", "sim_file_snapshot", "bytes_archive"):
+            b0 = R.save(a)        # these paths advance the original by one step; the restored state is the new one
         attach(r, cfg)
         va, vr = R.persisted_view(a, drop_wall=False), R.persisted_view(r, drop_wall=False)
         d1 = R.first_difference(va, vr)
@@ -384,18 +419,27 @@ class Search:
             advance(a, k); advance(r, k)
         except Exception as e:
             self.hist["error_while_continuing"] = self.hist.get("error_while_continuing", 0) + 1
+            if cfg.get("pw_index") is not None:
+                self.hist["pwrej|%d" % cfg["pw_index"]] = "continue: " + str(e)[:120]
             return
         if cfg.get("pre") or cfg.get("post"):
             self.hist["with_history_ops"] = self.hist.get("with_history_ops", 0) + 1
+        if cfg.get("pw_index") is not None:
+            self.hist["pwdone|%d" % cfg["pw_index"]] = 1       # this factor assignment ran to the end
         va, vr = R.persisted_view(a), R.persisted_view(r)
         d2 = R.first_difference(va, vr)
         if d2 is None:
             return
         d3 = R.first_difference(self.semantic(va), self.semantic(vr))
         if d3 is None:
-            c.violation("C05-N3:whfast-p_jh-uninitialised-bytes-persisted",
-                        "after continuing, the persisted ri_whfast.p_jh differs only in members WHFast never initialises (%s)" % d2,
-                        {"cfg": cfg, "path": path, "difference": d2})
+            if d2.startswith("var_config"):
+                c.violation("C05-N14:var_config-first-order-uninitialised-members",
+                            "persisted var_config differs only in index_1st_order_a/b of a FIRST-order configuration, which reb_simulation_add_variation_1st_order never initialises (%s)" % d2,
+                            {"cfg": cfg, "path": path, "difference": d2})
+            else:
+                c.violation("C05-N3:whfast-p_jh-uninitialised-bytes-persisted",
+                            "after continuing, the persisted ri_whfast.p_jh differs only in members WHFast never initialises (%s)" % d2,
+                            {"cfg": cfg, "path": path, "difference": d2})
             return
         if not self.budget_left():
             self.hist["failing_cases_beyond_classification_budget"] = self.hist.get("failing_cases_beyond_classification_budget", 0) + 1
@@ -426,8 +470,16 @@ def _twin_one(self, cfg, path, k=9):
     except Exception:
         self.hist["error_while_continuing"] = self.hist.get("error_while_continuing", 0) + 1
         return
-    d = R.first_difference(self.semantic(R.persisted_view(t1)), self.semantic(R.persisted_view(t2)))
+    if cfg.get("pw_index") is not None:
+        self.hist["pwdone|%d" % cfg["pw_index"]] = 1
+    v1, v2 = R.persisted_view(t1), R.persisted_view(t2)
+    d = R.first_difference(self.semantic(v1), self.semantic(v2))
     if d is None:
+        draw = R.first_difference(v1, v2)
+        if draw and draw.startswith("var_config"):
+            c.violation("C05-N14:var_config-first-order-uninitialised-members",
+                        "two identically built simulations differ in persisted bytes: index_1st_order_a/b of a FIRST-order variational configuration are never initialised (%s)" % draw,
+                        {"cfg": cfg, "path": path, "difference": draw})
         return
     # counterfactual: emulate the writer's "compress IAS15 arrays" on the never-saved twin
     t1 = build_sim(rb, cfg); advance(t1, cfg["save_after"]); self.pre_save_edit(t1, cfg)
@@ -1239,6 +1291,97 @@ def dimension_cases(c, S, info, R, rb):
     return dims
 
 
+def pairwise_array(c, factors, tag):
+    """covering array for this seed (cached in corpus/: generation is deterministic but takes ~15 s)"""
+    import hashlib, inspect
+    import persist_common as _pc
+    sig = hashlib.sha1((json.dumps(factors, sort_keys=False, default=str) + inspect.getsource(_pc.pair_excluded) +
+                        "".join(r[0] + r[1] + r[3] + inspect.getsource(r[2]) for r in PAIR_RULES)).encode()).hexdigest()[:12]
+    fn = os.path.join(ROOT, "corpus", "C05", "pairs_%s_%s_seed%d.json" % (tag, sig, c.seed))
+    if os.path.exists(fn):
+        j = json.load(open(fn))
+        return [OrderedDict(x) for x in j["cases"]], {tuple(p) for p in j["total"]}, {tuple(p[:4]): p[4] for p in j["excluded"]}
+    cases, tot, exc, unc = covering_array(factors, SplitMix(7919 * c.seed + 13))
+    os.makedirs(os.path.dirname(fn), exist_ok=True)
+    json.dump({"cases": [list(x.items()) for x in cases], "total": sorted(map(list, tot), key=str),
+               "excluded": sorted([list(k_) + [v] for k_, v in exc.items()], key=str)}, open(fn, "w"))
+    return cases, tot, exc
+
+
+def pairwise_cases(c, factors, tag, to_case):
+    arr, tot, exc = pairwise_array(c, factors, tag)
+    out = []
+    for i, fc in enumerate(arr):
+        cfg, path, k, kind = to_case(fc)
+        cfg["pw_index"] = i
+        out.append((cfg, path, k, kind))
+    return out, arr, tot, exc
+
+
+def finish_pairs(c, S, arr, tot, exc, run_more, factors=None, to_case=None):
+    """coverage.pairs from the factor assignments that ran to the end; assignments the code rejected leave their pairs
+    uncovered: up to two repair rounds generate other assignments for exactly those pairs"""
+    factors = factors or FACTORS
+    to_case = to_case or factor_cfg
+
+    def covered_now():
+        done = {int(k_.split("|")[1]) for k_ in S.hist if k_.startswith("pwdone|")}
+        cov = set()
+        for i in done:
+            if i < len(arr):
+                cov |= case_pairs(arr[i])
+        return cov & tot, done
+    cov, done = covered_now()
+    rounds = 0
+    while len(cov) < len(tot) and rounds < 2:
+        rounds += 1
+        missing = sorted(tot - cov, key=str)
+        rng = SplitMix(c.seed * 104729 + rounds)
+        extra = []
+        for pr in missing[:120]:
+            for attempt in range(3):
+                cand = {pr[0]: pr[1], pr[2]: pr[3]}
+                ok = True
+                for f in factors:
+                    if f in cand:
+                        continue
+                    vals = list(factors[f]); rng.shuffle(vals)
+                    for v in vals:
+                        if all(not pair_excluded(f, v, g, cand[g]) for g in cand):
+                            cand[f] = v
+                            break
+                    else:
+                        ok = False
+                        break
+                if ok:
+                    extra.append(OrderedDict((f, cand[f]) for f in factors))
+                    break
+        if not extra:
+            break
+        base = len(arr)
+        arr.extend(extra)
+        cases = []
+        for j, fc in enumerate(extra):
+            cfg, path, k, kind = to_case(fc)
+            cfg["pw_index"] = base + j
+            cases.append((cfg, path, k, kind))
+        run_more(cases)
+        cov, done = covered_now()
+    missing = sorted(tot - cov, key=str)
+    rejected = [dict(arr[i], _why=S.hist.get("pwrej|%d" % i, "?")) for i in range(len(arr)) if i not in done]
+    for k_ in [k_ for k_ in list(S.hist) if k_.startswith("pwrej|")]:
+        del S.hist[k_]
+    for k_ in [k_ for k_ in list(S.hist) if k_.startswith("pwdone|")]:
+        del S.hist[k_]
+    c.cov["pairs"] = {"covered": len(cov), "total": len(tot), "excluded": len(exc), "factors": {f: len(v) for f, v in factors.items()},
+                      "assignments_generated": len(arr), "assignments_completed": len(done), "repair_rounds": rounds,
+                      "missing": [list(p) for p in missing[:25]],
+                      "assignments_rejected_by_the_code": rejected[:40],
+                      "excluded_reasons": sorted({v for v in exc.values()})}
+    if c.thorough and missing:
+        c.corr_break("pairwise coverage incomplete: %d of %d applicable factor pairs never ran to the end, e.g. %s" % (len(missing), len(tot), missing[:3]))
+
+
 def finish_dimensions(c, S, extra, applicable):
     dm = {k_[4:]: v for k_, v in S.hist.items() if k_.startswith("dim|")}
     for k_ in [k_ for k_ in list(S.hist) if k_.startswith("dim|")]:
@@ -1299,7 +1442,7 @@ def replay_events(c, ev, hist, S):
         elif e[0] == "corr":
             c.corr_break(e[1], e[2])
     for k, v in hist.items():
-        S.hist[k] = S.hist.get(k, 0) + v
+        S.hist[k] = (S.hist.get(k, 0) + v) if not isinstance(v, str) else v
 
 
 def run_cases(c, S, cases, nproc=8, chunk=12, budget=45):
@@ -1505,7 +1648,7 @@ def run(c):
     cfgs = lattice(c.thorough)
     c.cov["lattice_size"] = len(cfgs)
     # --- correspondence
-    corr_cfgs = cfgs if c.thorough else [cf for i, cf in enumerate(cfgs) if i % 3 == (c.seed % 3)]
+    corr_cfgs = cfgs if c.thorough else [cf for i, cf in enumerate(cfgs) if i % 6 == (c.seed % 6)]
     correspondence(c, exe, rb, info, R, corr_cfgs)
     c.log("correspondence done: %s streams" % c.cov.get("model_streams_compared"))
     # --- search
@@ -1525,9 +1668,13 @@ def run(c):
     # may cut the tail of the list on a loaded machine: histogram.cases_skipped_wall_budget)
     hc = history_cases(c, cfgs)
     nlat = len(cfgs) * (2 if c.thorough else 1)
+    pw, pw_arr, pw_tot, pw_exc = pairwise_cases(c, FACTORS, "c05", factor_cfg)
+    hc = pw + hc
     first = ("archive", "syncsave")
     cases = [x for x in hc if x[3] in first] + cases[:nlat] + [x for x in hc if x[3] not in first] + cases[nlat:]
+    cases = [x for x in cases if x[0].get("pw_index") is not None] + dimension_first([x for x in cases if x[0].get("pw_index") is None])
     run_cases(c, S, cases)
+    finish_pairs(c, S, pw_arr, pw_tot, pw_exc, lambda more: run_cases(c, S, more, budget=20))
     c.log("lattice done (%d cases)" % len(cases))
     member_sweep(c, S, info, R, rb)
     heap_sweep(c, S, info, R, rb)
